@@ -116,6 +116,37 @@ def _norm_of(ev: Evaluator, t: T, fr=None) -> Optional[T]:
     return None
 
 
+def _magnitude_only(ev: Evaluator, t: T, fr=None) -> Optional[str]:
+    """the per-walker factor is computed from slogdet(R) using the log-magnitude (result [1]) but not the sign / phase
+    (result [0]): that is |det R|, not det R.  Returns a description, or None when this is not what t does."""
+    t = strip_wrappers(t)
+    bodies = [t]
+    vm = match_vmap(t) if t.op == "call" else None
+    if vm is not None and len(vm[2]) == 1:
+        f = vm[0]
+        x = sym("§r")
+        try:
+            if f.op == "closure":
+                bodies.append(ev.open_closure(f, [x]))
+            elif f.op in ("fn", "attr") and fr is not None:
+                cands = ev.resolve_callees(f, fr)
+                if cands and len(cands) == 1:
+                    b_ = ev.inline_function(fr, f, cands[0][0], cands[0][1], [x], [], 0)
+                    if b_ is not None:
+                        bodies.append(b_)
+        except Exception:
+            pass
+    for b in bodies:
+        sl = {}
+        for x_ in subterms(b):
+            if x_.op == "getitem" and x_.args[1].op == "const" and x_.args[1].args[0] in (0, 1) and x_.args[0].op == "call" and \
+                    (func_name(x_.args[0]) or "").split(".")[-1] == "slogdet":
+                sl.setdefault(x_.args[0].uid, set()).add(x_.args[1].args[0])
+        if sl and all(v == {1} for v in sl.values()):
+            return "exp(slogdet(R)[1]) without slogdet(R)[0]"
+    return None
+
+
 def pair3(ctx, fi: FuncInfo) -> int:
     """qr_vmap / qr_vmap_uhf: returned walkers[s] == Q of qr(walkers[s]) and norm[s] ==
     prod(diag(R)) of the *same* factorisation."""
@@ -177,7 +208,11 @@ def pair3(ctx, fi: FuncInfo) -> int:
                                 if b_ is not None and mentions_prod(b_):
                                     return True
                         return False
-                    if any(x is own_r for x in subterms(nf)) and mentions_trace(nf) and not mentions_prod(nf):
+                    mag = _magnitude_only(ev, nf, fr) if any(x is own_r for x in subterms(nf)) else None
+                    if mag is not None:
+                        why = (f"norm factor{tag} is {mag}: the magnitude of det R only -- Householder QR gives diagonal entries "
+                               f"of either sign, so the sign / phase of the determinant is lost")
+                    elif any(x is own_r for x in subterms(nf)) and mentions_trace(nf) and not mentions_prod(nf):
                         why = f"norm factor{tag} reduces R's diagonal by a sum / trace / extremum; det R is the product of the diagonal"
                     elif any(x is own_r for x in subterms(nf)):
                         # computed from the R of this very factorisation, in a form that is not recognised as the
